@@ -2,7 +2,7 @@
    encode the observation.  [run] is what the extracted CLI calls; [judge] applies the
    executable property predicates of Spec.v to an observation made on the IMPLEMENTATION. *)
 From Coq Require Import List Ascii String ZArith Bool.
-From Model Require Import Bytes Wire Glob StaticRoute RoundRobin Pins Resolver SendFault Codec Message Spec SpecC14 SpecC16.
+From Model Require Import Bytes Wire Glob StaticRoute RoundRobin Pins Resolver SendFault Codec Message Spec SpecC14 SpecC16 SpecC15 SpecC19 SpecC05.
 Import ListNotations.
 
 Definition decode_error : list bytes := [s2b "decode-error"].
@@ -209,8 +209,62 @@ Definition judge_dialog (args : list bytes) : list bytes :=
   | None => decode_error
   end.
 
+(* rr: case, then per op its output, then "final" and the rotation list *)
+Fixpoint d_rr_outs (ops : list rr_op) : dec (list rr_out) :=
+  match ops with
+  | [] => d_ret []
+  | o :: r =>
+      dlet tag := d_bytes in
+      dlet x := (if beq tag (s2b "added") then d_ret OAdded
+                 else if beq tag (s2b "removed") then (dlet c := d_bool in d_ret (ORemoved c))
+                 else if beq tag (s2b "sent") then
+                   (dlet a := d_bytes in d_ret (OSent (if beq a (s2b "none") then None else Some a)))
+                 else (fun _ => None)) in
+      dlet rest := d_rr_outs r in d_ret (x :: rest)
+  end.
+Definition judge_rr (args : list bytes) : list bytes :=
+  match d_list d_rr_op args with
+  | Some (ops, obs) =>
+      match run_dec (dlet outs := d_rr_outs ops in dlet _ := d_bytes in dlet fin := d_list d_bytes in
+                     d_ret (outs, fin)) obs with
+      | Some (outs, fin) => ok_tok (negb (rr_domain ops) || judge_C05 ops outs fin)
+      | None => decode_error
+      end
+  | None => decode_error
+  end.
+
+(* pins: case, then per op: result token + table size *)
+Definition d_pin_obs : dec (pin_out * nat) :=
+  dlet r := d_bytes in dlet n := d_nat in
+  d_ret (if beq r (s2b "-") then PNone else if beq r (s2b "none") then PGot None else PGot (Some r), n).
+Definition judge_pins (args : list bytes) : list bytes :=
+  match d_pair d_int (d_list d_pin_op) args with
+  | Some ((t, ops), obs) =>
+      match run_dec (d_rep d_pin_obs (List.length ops)) obs with
+      | Some outs => ok_tok (pins_domain t ops && judge_C15 t ops outs)
+      | None => decode_error
+      end
+  | None => decode_error
+  end.
+
+(* resolver: case, then per step: rotation list, removal notifications, entry addresses *)
+Definition d_res_obs : dec (list bytes * nat * list bytes) :=
+  dlet rot := d_list d_bytes in dlet n := d_nat in dlet ent := d_list d_bytes in d_ret (rot, n, ent).
+Definition judge_resolver (args : list bytes) : list bytes :=
+  match d_pair d_bytes (d_list d_outcome) args with
+  | Some ((port, os), obs) =>
+      match run_dec (d_rep d_res_obs (List.length os)) obs with
+      | Some o => ok_tok (c19_domain os && judge_C19 port os o)
+      | None => decode_error
+      end
+  | None => decode_error
+  end.
+
 Definition judge (comp : bytes) (args : list bytes) : list bytes :=
   if beq comp (s2b "findroute") then judge_findroute args
   else if beq comp (s2b "codec") then judge_codec args
   else if beq comp (s2b "dialog") then judge_dialog args
+  else if beq comp (s2b "rr") then judge_rr args
+  else if beq comp (s2b "pins") then judge_pins args
+  else if beq comp (s2b "resolver") then judge_resolver args
   else [s2b "unknown-component"].
